@@ -193,13 +193,14 @@ def work_pure(inst) -> dict:
 # (history)
 
 
-def history_outcome(pool, L, ev, choose):
+def history_outcome(pool, L, ev, choose, fresh_ev=None):
+    """fresh_ev: an architecture object that has never been evaluated on, holding the same import relation."""
     rules = [make_rule(d) for d in pool]  # one object per pool entry, re-used along the history
     last = None
     for n in range(L):
         c = choose(n)
         last = (c, evaluate_raw(rules[c], ev))
-    fresh = evaluate_raw(make_rule(pool[last[0]]), ev)
+    fresh = evaluate_raw(make_rule(pool[last[0]]), fresh_ev if fresh_ev is not None else ev)
     if fresh != last[1]:
         return ("MISMATCH", f"fresh evaluation of [{show(pool[last[0]])}] gives {fresh}", f"after the history: {last[1]}")
     return ("OK", last[1][0])
@@ -208,13 +209,18 @@ def history_outcome(pool, L, ev, choose):
 def work_history(inst) -> dict:
     pool = [tuple(d) for d in inst["pool"]]
     L = inst["L"]
-    a1 = SymArch(NODES1, tag="e")
+    nodes = inst.get("nodes", NODES1)
+    keep = {tuple(v) for v in inst["vars"]} if inst.get("vars") else None
+    no_var = [(x, y) for x in nodes for y in nodes if x != y and (x, y) not in keep] if keep else ()
+    a1 = SymArch(nodes, tag="e", extra_no_var=no_var)
 
     def fn():
-        return history_outcome(pool, L, a1.ev, lambda n: ENGINE.choice(("h", n), len(pool)))
+        # the reference evaluation runs on a brand-new architecture object over the same symbolic relation
+        fresh = SymArch(nodes, tag="e", extra_no_var=no_var)
+        return history_outcome(pool, L, a1.ev, lambda n: ENGINE.choice(("h", n), len(pool)), fresh.ev)
 
     def make_payload(assign):
-        return {"kind": "history", "pool": [list(d) for d in pool], "L": L, "assign": [[list(k), v] for k, v in sorted(assign.items(), key=str)]}
+        return {"kind": "history", "pool": [list(d) for d in pool], "L": L, "nodes": nodes, "assign": [[list(k), v] for k, v in sorted(assign.items(), key=str)]}
 
     keys = [(("e", x, y), 2) for x, y in a1.pairs] + [(("h", n), len(pool)) for n in range(L)]
     return check_no_mismatch(f"history L={L} pool={inst['name']}", fn, inst["cap"], make_payload, replay_detail, all_keys=keys, sample={"pool": [show(d) for d in pool]})
@@ -381,6 +387,18 @@ def instances(tier: str) -> list[dict]:
     mod = [d for d in pool if d[0] == "rule"]
     for name, sel in (("module", mod[::9]), ("aliases", [d for d in mod if d[1].get("anything")] + mod[1:2]), ("mixed", [pool[2], pool[-1], pool[-4], pool[-10], pool[-16]]), ("seeded", rnd.sample(pool, 5)), ("seeded2", rnd.sample(pool, 5))):
         out.append({"part": "history", "name": name, "pool": [list(d) for d in sel][:n_pool], "L": 3, "cap": CAPS[tier]})
+    # a 'sub modules of X' rule followed by rules about other subjects with the same objects, on a tree where X is an
+    # inner package (state keyed on the object set must not leak from one subject / rule to the next)
+    N5 = ["p", "p.a", "p.a.x", "p.b", "p.c"]
+    subpool = [
+        ("rule", RuleSpec("should_only", "import", False, "sub", ("p.a",), "named", ("p.c",)).as_json()),
+        ("rule", RuleSpec("should_only", "import", False, "named", ("p.b",), "named", ("p.c",)).as_json()),
+        ("rule", RuleSpec("should_not", "import", True, "named", ("p.b",), "named", ("p.c",)).as_json()),
+        ("rule", RuleSpec("should_not", "import", True, "sub", ("p.a",), "named", ("p.c",)).as_json()),
+        ("rule", RuleSpec("should_only", "import", False, "sub", ("p.a", "p"), "named", ("p.c",)).as_json()),
+    ]
+    out.append({"part": "history", "name": "sub-then-named", "pool": [list(d) for d in subpool][: (4 if tier == "quick" else 5)], "L": 3, "nodes": N5, "cap": CAPS[tier],
+                "vars": [["p.a.x", "p.c"], ["p.a.x", "p.b"], ["p.b", "p.a"], ["p.b", "p.c"], ["p.b", "p.a.x"], ["p.a", "p.c"], ["p.a", "p.b"]]})
     out += [dict(i, cap=CAPS[tier]) for i in order_instances(tier)]
     for k in range(3 if tier == "quick" else 6):
         out.append({"part": "scan", "excl_perm": k, "cap": CAPS[tier], "fixed": {"r/a": True, "r/c": True}})
@@ -449,7 +467,7 @@ def replay_detail(payload: dict):
         return ok, f"rule [{show(desc)}] on imports {[(k[1], k[2]) for k, v in assign.items() if k[0] == 'e' and v]} then on a second architecture with imports {[(k[1], k[2]) for k, v in assign.items() if k[0] == 'f' and v]}: " + ("pure and re-usable" if ok else f"expected {o[1]}, got {o[2]}"), {"outcome": [str(x)[:300] for x in o]}
     if kind == "history":
         pool = [tuple(d) for d in payload["pool"]]
-        o = history_outcome(pool, payload["L"], _real_arch(NODES1, assign, "e"), lambda n: assign.get(("h", n), 0))
+        o = history_outcome(pool, payload["L"], _real_arch(payload.get("nodes", NODES1), assign, "e"), lambda n: assign.get(("h", n), 0), _real_arch(payload.get("nodes", NODES1), assign, "e"))
         ok = o[0] == "OK"
         hist = [show(pool[assign.get(("h", n), 0)]) for n in range(payload["L"])]
         return ok, f"history {hist} on imports {[(k[1], k[2]) for k, v in assign.items() if k[0] == 'e' and v]}: " + ("last outcome equals a fresh evaluation" if ok else f"expected {o[1]}, got {o[2]}"), {"outcome": [str(x)[:300] for x in o]}
